@@ -77,6 +77,10 @@ def Expr.ty : Expr → Option Ty
     match a.ty with
     | some x => if objTy x then some (.list false) else none
     | none => none
+  | .joinIt sep a =>
+    match sep.ty, a.ty with
+    | some x, some y => if objTy x && objTy y then some .text else none
+    | _, _ => none
 def tyList : List Expr → Bool
   | [] => true
   | e :: es => e.ty.isSome && tyList es
@@ -117,6 +121,10 @@ def ref : Expr → Except Err Cells
     let c ← ref a
     .ok (pyFixedLen c n)
   | .iter a => ref a
+  | .joinIt sep a => do
+    let s ← ref sep
+    let c ← ref a
+    .ok (pyJoin s (c.map fun x => [x]))      -- `sep.join(text)`: one item per character
 def refList : List Expr → Except Err (List Cells)
   | [] => .ok []
   | e :: es => do
@@ -394,6 +402,55 @@ theorem eval_sim (e : Expr) (τ : Ty) (h : e.ty = some τ) : Sim τ (eval e) (re
           | list tp' ps' => rw [← hpt, Part.ty, not_objTy_list] at hobj; cases hobj
         · simp only [eval, ref, hea, hra, error_bind]; exact rfl
       · cases h
+  | joinIt sep a =>
+    simp only [Expr.ty] at h
+    cases hts : sep.ty with
+    | none => simp [hts] at h
+    | some x =>
+      cases hta : a.ty with
+      | none => simp [hts, hta] at h
+      | some y =>
+        simp only [hts, hta] at h
+        split at h
+        · next hcond =>
+          cases h
+          simp only [Bool.and_eq_true] at hcond
+          rcases (eval_sim sep x hts).inv with ⟨p, c, hea, hra, hpt, hpc, hpcells⟩ | ⟨e, hea, hra⟩
+          · rcases (eval_sim a y hta).inv with ⟨q, d, heb, hrb, hqt, hqc, hqcells⟩ | ⟨e, heb, hrb⟩
+            · simp only [eval, ref, hea, hra, heb, hrb, ok_bind]
+              -- the items of the iterable
+              have hitems : ∃ items, iterItems q = Except.ok items ∧
+                  items.map Part.cells = d.map (fun x => [x]) := by
+                cases q with
+                | text t =>
+                  refine ⟨(t.cells.map cellText).map Part.text, ?_, ?_⟩
+                  · show liftErr (t.iter.map fun ts => ts.map Part.text) = _
+                    rw [iter_spec t hqc.2]; rfl
+                  rw [← hqcells, Part.cells]
+                  simp [Part.cells, cellText_cells, Function.comp_def]
+                | chunk ch =>
+                  refine ⟨(ch.cells.map (fun x => (⟨x.2, [x.1]⟩ : Chunk))).map Part.chunk, ?_, ?_⟩
+                  · show liftErr (ch.iter.map fun cs => cs.map Part.chunk) = _
+                    rw [chunk_iter_spec]; rfl
+                  rw [← hqcells, Part.cells]
+                  simp [Part.cells, Chunk.cells, Function.comp_def]
+                | str s => rw [← hqt, Part.ty, not_objTy_str] at hcond; cases hcond.2
+                | list tp' ps' => rw [← hqt, Part.ty, not_objTy_list] at hcond; cases hcond.2
+              obtain ⟨items, hit, hcells⟩ := hitems
+              rw [hit]
+              simp only [ok_bind]
+              cases p with
+              | text t =>
+                exact ⟨rfl, join_canon _ _, by rw [Part.cells, join_cells, hcells, ← hpcells]; rfl⟩
+              | chunk ch =>
+                refine ⟨rfl, join_canon _ _, ?_⟩
+                rw [Part.cells, join_cells, hcells, construct_cells, ← hpcells]
+                simp [Part.cellsList, Part.cells]
+              | str s => rw [← hpt, Part.ty, not_objTy_str] at hcond; cases hcond.1
+              | list tp' ps' => rw [← hpt, Part.ty, not_objTy_list] at hcond; cases hcond.1
+            · simp only [eval, ref, hea, hra, heb, hrb, ok_bind, error_bind]; exact rfl
+          · simp only [eval, ref, hea, hra, error_bind]; exact rfl
+        · cases h
 theorem evalList_sim (es : List Expr) (h : tyList es = true) : SimList (evalList es) (refList es) := by
   cases es with
   | nil => exact ⟨trivial, rfl⟩
@@ -469,6 +526,13 @@ theorem ref_error (e : Expr) (err : Err) (h : ref e = .error err) : err = .index
     · exact ref_error a err h1
     · cases h2
   | iter a => simp only [ref] at h; exact ref_error a err h
+  | joinIt sep a =>
+    simp only [ref] at h
+    rcases bind_error_inv h with h1 | ⟨_, _, h2⟩
+    · exact ref_error sep err h1
+    · rcases bind_error_inv h2 with h3 | ⟨_, _, h4⟩
+      · exact ref_error a err h3
+      · cases h4
 theorem refList_error (es : List Expr) (err : Err) (h : refList es = .error err) : err = .indexError := by
   cases es with
   | nil => cases h
